@@ -45,7 +45,10 @@ theorem merge_preserves_totals (rs : List (Option KReport)) :
 theorem mergeEvents_preserves_total (l : List VEvent) : sumDelta (mergeEvents l) = sumDelta l :=
   sumDelta_mergeEvents l
 
-/-- **inside_pipestance**, on the resolved location.  Under every
+/-- **inside_pipestance**, on the resolved location (for entry lists of ANY origin, with the
+shape of the enumeration as a hypothesis — the statement transports `h`/`hreal` along
+`removed ⊆ s0.disk`; for what the walk enumerates `inside_pipestance_walked` and
+`removed_in_place_or_nothing` need no such hypothesis and supersede it).  Under every
 interleaving and for every configuration, whatever is removed was an entry of
 the fork's own files/ or tmp/ directories, as enumerated by the walk.
 ASSUMED about that enumeration (this is what `util.Walk` not following links
@@ -72,24 +75,6 @@ theorem inside_pipestance (c : Cfg) (s0 : St) (evs : List Ev) (root : Path) (fs 
     rw [parentsReal_acts_in_place fs d.path (hreal d h1) e he]
     exact h d h1
 
-/-- … and when a directory ABOVE the fork is a link (a relocated sub-pipeline
-directory: `ParentsReal` fails for every entry of the fork), VDR refuses the
-fork — `Node.vdrCheckSymlink`, since the repair of this round applied to the
-fork's own transitions too — i.e. no temp cleaning and no kill pass runs, and
-then nothing at all is removed (`refused_fork_untouched` below).  So for every
-fork: either every removed path is acted on in place, inside the pipestance,
-or nothing is removed. -/
-theorem removed_in_place_or_nothing (c : Cfg) (s0 : St) (evs : List Ev) (root : Path) (fs : List FsEnt)
-    (fr : s0.removed = []) (h : ∀ d ∈ s0.disk, pathIsInside d.path root = true)
-    (hcase : (∀ d ∈ s0.disk, ParentsReal fs d.path) ∨ (∀ e ∈ evs, e.removes = false)) :
-    ∀ d ∈ (run c s0 evs).removed, ∀ e ∈ fs, pathIsInside (throughLink e d.path) root = true := by
-  rcases hcase with hreal | href
-  · intro d hd
-    exact (inside_pipestance c s0 evs root fs fr h hreal d hd).2.2
-  · intro d hd
-    rw [(run_refused c s0 evs href).2.1, fr] at hd
-    cases hd
-
 /-- **inside_pipestance_walked.**  `ParentsReal` is not an assumption for what the
 walk enumerates: if the fork's entries are what `util.Walk` reports below a
 directory `root` whose content is the (well-formed: names non-empty, without
@@ -114,6 +99,58 @@ theorem inside_pipestance_walked (c : Cfg) (s0 : St) (evs : List Ev) (root : Pat
   · obtain ⟨k, hk⟩ := hdisk d h1
     have hp := walkBelow_parentsReal t hw root d.path k hk
     exact ⟨walkBelow_inside t root d.path k hk, hp, parentsReal_acts_in_place _ _ hp⟩
+
+/-- **removed_in_place_or_nothing.**  The dichotomy, PROVED, with the guard in
+the model: `refusedBy fs chain` is what `Fork.vdrAcrossSymlink` computes — is
+one of the directories the code lstats on the way to the fork's files (`chain`:
+the node's directory and the pipelines' above it, the fork directory, every
+job's directory, files and temp directory; fork/job/files level since the
+repair of the last round) a symbolic link of the file system `fs` —, and
+`runG` is a history under that guard (refused: the removing passes return at
+once).  If the fork's entries are what the walk reports below `root` (tree
+`t`, well-formed) and every link of the file system is either one of the
+guarded directories or lies below `root`, then EITHER the fork is refused and
+nothing at all is removed, reported or made final, OR every removed path has
+only real directories above it — no link of `fs` is a proper ancestor —, is
+acted on where it is written and lies inside `root`.  (One walk root; a fork
+has several — each job's files and temp directory —: links below ANOTHER root
+of the same fork are covered only if the roots do not nest, which is not
+modelled.) -/
+theorem removed_in_place_or_nothing (c : Cfg) (s0 : St) (evs : List Ev) (root : Path) (t : FsTree)
+    (fs : List FsEnt) (chain : List Path) (hw : t.wf = true) (fr : s0.removed = [])
+    (hdisk : ∀ d ∈ s0.disk, ∃ k, (d.path, k) ∈ walkBelow root t)
+    (hfs : ∀ e ∈ fs, e.link ≠ none → e.path ∈ chain ∨ e ∈ entsBelow root t) :
+    (refusedBy fs chain = true ∧ (runG true c s0 evs).removed = [] ∧ (runG true c s0 evs).disk = s0.disk ∧
+      (runG true c s0 evs).report = s0.report ∧ (runG true c s0 evs).final = s0.final) ∨
+    (refusedBy fs chain = false ∧
+      ∀ d ∈ (runG (refusedBy fs chain) c s0 evs).removed,
+        pathIsInside d.path root = true ∧ ParentsReal fs d.path ∧ ∀ e ∈ fs, throughLink e d.path = d.path) := by
+  cases hr : refusedBy fs chain with
+  | true =>
+    obtain ⟨h1, h2, h3, h4⟩ := runG_true_removed c s0 evs
+    exact Or.inl ⟨rfl, by rw [h1, fr], h2, h3, h4⟩
+  | false =>
+    refine Or.inr ⟨rfl, ?_⟩
+    rw [runG_false]
+    intro d hd
+    rcases (shr_run c s0 evs).removed d hd with h1 | h1
+    · rw [fr] at h1; cases h1
+    · obtain ⟨k, hk⟩ := hdisk d h1
+      have hp : ParentsReal fs d.path := by
+        intro e he hl
+        rcases hfs e he hl with hc | hb
+        · exact absurd hc (not_refused hr e he hl)
+        · exact walkBelow_no_link_above t hw root d.path k hk e hb hl
+      exact ⟨walkBelow_inside t root d.path k hk, hp, parentsReal_acts_in_place _ _ hp⟩
+
+/-- the guard is not vacuous either way: a linked files directory refuses the fork, a link
+below the walk root does not -/
+theorem guard_refuses_linked_files_dir :
+    refusedBy [⟨"/ps/N/fork0/chnk0-u1/files".toList, some "/elsewhere".toList⟩]
+      ["/ps/N".toList, "/ps/N/fork0".toList, "/ps/N/fork0/chnk0-u1".toList, "/ps/N/fork0/chnk0-u1/files".toList] = true ∧
+    refusedBy [⟨"/ps/N/fork0/chnk0-u1/files/l".toList, some "/elsewhere".toList⟩]
+      ["/ps/N".toList, "/ps/N/fork0".toList, "/ps/N/fork0/chnk0-u1".toList, "/ps/N/fork0/chnk0-u1/files".toList] = false := by
+  decide
 
 /-- the walk does not follow a link at its root (fix 950c00b) nor below it: a tree with a
 directory, a link to a directory outside, a cycle and a dangling link -/
@@ -355,6 +392,26 @@ theorem clone_after_history_consistent (c : Cfg) (s0 : St) (evs : List Ev) (ok :
   exact cloneFork_bk r.bk disk
 
 /-! ### definitional unfoldings (documentation of the model, not guarantees) -/
+
+/-- (the case distinction as a HYPOTHESIS — `hcase` — kept from an earlier round; the proved
+dichotomy is `removed_in_place_or_nothing`)  … and when a directory ABOVE the fork is a link (a relocated sub-pipeline
+directory: `ParentsReal` fails for every entry of the fork), VDR refuses the
+fork — `Node.vdrCheckSymlink`, since the repair of this round applied to the
+fork's own transitions too — i.e. no temp cleaning and no kill pass runs, and
+then nothing at all is removed (`refused_fork_untouched` below).  So for every
+fork: either every removed path is acted on in place, inside the pipestance,
+or nothing is removed. -/
+theorem removed_in_place_or_nothing_cases (c : Cfg) (s0 : St) (evs : List Ev) (root : Path) (fs : List FsEnt)
+    (fr : s0.removed = []) (h : ∀ d ∈ s0.disk, pathIsInside d.path root = true)
+    (hcase : (∀ d ∈ s0.disk, ParentsReal fs d.path) ∨ (∀ e ∈ evs, e.removes = false)) :
+    ∀ d ∈ (run c s0 evs).removed, ∀ e ∈ fs, pathIsInside (throughLink e d.path) root = true := by
+  rcases hcase with hreal | href
+  · intro d hd
+    exact (inside_pipestance c s0 evs root fs fr h hreal d hd).2.2
+  · intro d hd
+    rw [(run_refused c s0 evs href).2.1, fr] at hd
+    cases hd
+
 
 /-- `cloneFork` is a value copy of the two tables in the model, so `BK` transfers by rewriting
 (non-sharing of the real Go maps is probed on real forks, not proved).  Dynamic fork expansion: the fork `cloneFork`
